@@ -185,6 +185,10 @@ class Gen:
             self.mark("shared_qkv")
         T = sh[-2]
         styles = ["plain", "causal", "mask_kw", "mask_kw_p0"]
+        if self.vocab == "quant" and self.ok("sdpa_scale"):
+            # the softmax scale given by keyword (no unit-scaled counterpart takes it, so
+            # callers that unit_scale() the program first list "sdpa_scale" in avoid)
+            styles += ["scale_kw", "mask_pos_scale"]
         if self.ok("sdpa_mask_pos"):
             styles.append("mask_pos")
         if self.o.get("force") == "sdpa_mask_pos" and "sdpa_mask_pos" not in self.used_shapes:
